@@ -145,9 +145,12 @@ Definition f_of (trim : bytes -> bytes) (txs : list tx) (n : bytes) : bytes :=
 
 (* ---------------------------------------------------------------- 2. coordinates that are not finite *)
 
-(* a coordinate: a finite number (its text: opaque) or one of the three values JSON cannot express *)
-Inductive num := Fin (t : bytes) | PInf | NInf | NaN.
-Definition finite (n : num) : bool := match n with Fin _ => true | _ => false end.
+(* a coordinate: a finite number (its text: opaque; inrange: inside the range the GeoJSON validator
+   wants for its axis, -180..180 / -90..90; a third coordinate is never checked: inrange = true) or one
+   of the three values JSON cannot express *)
+Inductive num := Fin (t : bytes) (inrange : bool) | PInf | NInf | NaN.
+Definition finite (n : num) : bool := match n with Fin _ _ => true | _ => false end.
+Definition valid (n : num) : bool := match n with Fin _ ok => ok | _ => false end.   (* geometry.Point.Valid *)
 
 (* spatial payloads as the rewrite distinguishes them *)
 Inductive geo :=
@@ -157,8 +160,8 @@ Inductive geo :=
 | GOther (kind : bytes) (cs : list num).      (* every other GeoJSON object: type and its coordinates in document order *)
 
 (* a JSON coordinate *)
-Inductive jnum := JNum (t : bytes) | JNull.
-Definition jof (n : num) : jnum := match n with Fin t => JNum t | _ => JNull end.   (* AppendJSON *)
+Inductive jnum := JNum (t : bytes) (inrange : bool) | JNull.
+Definition jof (n : num) : jnum := match n with Fin t ok => JNum t ok | _ => JNull end.   (* AppendJSON *)
 
 (* the payload arguments of a "set" record *)
 Inductive payload :=
@@ -183,9 +186,8 @@ Definition coords (g : geo) : bytes * list num :=
 (* pinned tree: values = append(values, "object", string(o.Geo().AppendJSON(nil))) *)
 Definition enc_orig (g : geo) : payload := PObject (fst (coords g)) (map jof (snd (coords g))).
 
-(* repaired tree (shrinkGeoArgs): a point or rectangle with a non-finite coordinate is written with
-   POINT / BOUNDS *)
-Definition enc (g : geo) : payload :=
+(* first repair: only non-finite coordinates are written with POINT / BOUNDS *)
+Definition enc_finite (g : geo) : payload :=
   match g with
   | GPoint y x => if finite y && finite x then enc_orig g else PPoint [y; x]
   | GPointZ y x z => if finite y && finite x && finite z then enc_orig g else PPoint [y; x; z]
@@ -193,8 +195,19 @@ Definition enc (g : geo) : payload :=
   | GOther _ _ => enc_orig g
   end.
 
-Definition nof_point (j : jnum) : num := match j with JNum t => Fin t | JNull => NaN end.   (* parseJSONPointCoords: null -> NaN *)
-Definition nof_strict (j : jnum) : option num := match j with JNum t => Some (Fin t) | JNull => None end.
+(* repaired tree (shrinkGeoArgs): a point or rectangle the GeoJSON reader would not give back — a
+   position that is not Valid() (out of range, NaN, infinite) or a third coordinate that is not
+   finite — is written with POINT / BOUNDS *)
+Definition enc (g : geo) : payload :=
+  match g with
+  | GPoint y x => if valid y && valid x then enc_orig g else PPoint [y; x]
+  | GPointZ y x z => if valid y && valid x && finite z then enc_orig g else PPoint [y; x; z]
+  | GRect a b c d => if valid a && valid b && valid c && valid d then enc_orig g else PBounds [a; b; c; d]
+  | GOther _ _ => enc_orig g
+  end.
+
+Definition nof_point (j : jnum) : num := match j with JNum t ok => Fin t ok | JNull => NaN end.   (* parseJSONPointCoords: null -> NaN *)
+Definition nof_strict (j : jnum) : option num := match j with JNum t ok => Some (Fin t ok) | JNull => None end.
 
 Fixpoint all_some {A} (l : list (option A)) : option (list A) :=
   match l with
@@ -203,8 +216,10 @@ Fixpoint all_some {A} (l : list (option A)) : option (list A) :=
   | None :: _ => None
   end.
 
-(* cmdSET on the payload: None = the record is refused (errCoordinatesInvalid: fatal at load) *)
-Definition dec (p : payload) : option geo :=
+(* cmdSET on the payload; rv: the server runs with REQUIREVALID (geomParseOpts.RequireValid: the
+   GeoJSON reader refuses an object that is not Valid(); POINT and BOUNDS arguments are never
+   validated).  None = the record is refused (errCoordinatesInvalid: fatal at load) *)
+Definition dec (rv : bool) (p : payload) : option geo :=
   match p with
   | PPoint [y; x] => Some (GPoint y x)
   | PPoint [y; x; z] => Some (GPointZ y x z)
@@ -214,12 +229,16 @@ Definition dec (p : payload) : option geo :=
   | PObject k cs =>
       if bytes_eqb k k_point then
         match cs with
-        | [x; y] => Some (GPoint (nof_point y) (nof_point x))
-        | [x; y; z] => Some (GPointZ (nof_point y) (nof_point x) (nof_point z))
+        | [x; y] =>
+            if rv && negb (valid (nof_point y) && valid (nof_point x)) then None
+            else Some (GPoint (nof_point y) (nof_point x))
+        | [x; y; z] =>
+            if rv && negb (valid (nof_point y) && valid (nof_point x)) then None
+            else Some (GPointZ (nof_point y) (nof_point x) (nof_point z))
         | _ => None
         end
       else match all_some (map nof_strict cs) with
-           | Some l => Some (GOther k l)
+           | Some l => if rv && negb (forallb valid l) then None else Some (GOther k l)
            | None => None
            end
   end.
